@@ -266,3 +266,209 @@ func RunDiag(conf core.Config) *core.Result {
 	}
 	return res
 }
+
+// RunRangeFirst implements GRAPHINV.rangefirst: the dense-matrix graphs panic
+// for a node ID outside the matrix through the first slice index g.nodes[x]
+// or matrix access g.mat.Set/SetSym/At(int(x), …) that uses it. "Documented
+// panics leave the graph unchanged" then requires that no store into the
+// receiver's state precedes that first use: on the control-flow graph pruned
+// under "g.has(x) is false", no path from the entry performs a receiver
+// store (g.nodes[y] = …, g.mat.Set…) and afterwards reaches the first site
+// that indexes with x.
+func RunRangeFirst(conf core.Config) *core.Result {
+	res := core.NewResult("RANGEFIRST")
+	res.Rules = append(res.Rules, "GRAPHINV.rangefirst: in the dense-matrix graph types the first slice index or matrix access that uses a node ID is not preceded by a store into the receiver's state on any path where that ID is outside the matrix (g.has(id) false)")
+	res.Configs = append(res.Configs, conf.String())
+	pkgs, err := core.Load(conf, "./graph/simple")
+	if err != nil {
+		res.Brokenf("%v", err)
+		return res
+	}
+	for _, pkg := range pkgs {
+		info := pkg.TypesInfo
+		for _, f := range pkg.Syntax {
+			for _, d := range f.Decls {
+				fd, ok := d.(*ast.FuncDecl)
+				if !ok || fd.Body == nil || fd.Recv == nil || len(fd.Recv.List) != 1 || len(fd.Recv.List[0].Names) != 1 {
+					continue
+				}
+				recv := info.Defs[fd.Recv.List[0].Names[0]]
+				if recv == nil {
+					continue
+				}
+				name := core.FuncName(pkg, fd)
+				recvField := func(e ast.Expr, field string) bool {
+					sel, ok := ast.Unparen(e).(*ast.SelectorExpr)
+					if !ok || sel.Sel.Name != field {
+						return false
+					}
+					id, ok := ast.Unparen(sel.X).(*ast.Ident)
+					return ok && core.ObjOf(info, id) == recv
+				}
+				idOf := func(e ast.Expr) types.Object {
+					e = ast.Unparen(e)
+					if c, ok := e.(*ast.CallExpr); ok && len(c.Args) == 1 {
+						if tv, ok := info.Types[c.Fun]; ok && tv.IsType() {
+							e = ast.Unparen(c.Args[0])
+						}
+					}
+					id, ok := e.(*ast.Ident)
+					if !ok {
+						return nil
+					}
+					o := core.ObjOf(info, id)
+					if o == nil {
+						return nil
+					}
+					if b, ok := o.Type().Underlying().(*types.Basic); !ok || b.Kind() != types.Int64 {
+						return nil
+					}
+					return o
+				}
+				// events of a node, in source order
+				type event struct {
+					pos   token.Pos
+					write bool
+					ids   []types.Object
+					text  string
+				}
+				eventsOf := func(n ast.Node) []event {
+					var evs []event
+					ast.Inspect(n, func(m ast.Node) bool {
+						switch x := m.(type) {
+						case *ast.FuncLit:
+							return false
+						case *ast.AssignStmt:
+							for _, l := range x.Lhs {
+								if ix, ok := ast.Unparen(l).(*ast.IndexExpr); ok && recvField(ix.X, "nodes") {
+									if _, isSlice := info.TypeOf(ix.X).Underlying().(*types.Slice); isSlice {
+										ev := event{pos: ix.Pos(), write: true, text: types.ExprString(ix)}
+										if o := idOf(ix.Index); o != nil {
+											ev.ids = append(ev.ids, o)
+										}
+										evs = append(evs, ev)
+									}
+								}
+							}
+						case *ast.IndexExpr:
+							if recvField(x.X, "nodes") {
+								if _, isSlice := info.TypeOf(x.X).Underlying().(*types.Slice); isSlice {
+									if o := idOf(x.Index); o != nil {
+										evs = append(evs, event{pos: x.Pos(), ids: []types.Object{o}, text: types.ExprString(x)})
+									}
+								}
+							}
+						case *ast.CallExpr:
+							sel, ok := x.Fun.(*ast.SelectorExpr)
+							if !ok || !recvField(sel.X, "mat") || len(x.Args) < 2 {
+								return true
+							}
+							ev := event{pos: x.Pos(), text: types.ExprString(x.Fun)}
+							switch sel.Sel.Name {
+							case "Set", "SetSym":
+								ev.write = true
+							case "At":
+							default:
+								return true
+							}
+							for _, a := range x.Args[:2] {
+								if o := idOf(a); o != nil {
+									ev.ids = append(ev.ids, o)
+								}
+							}
+							evs = append(evs, ev)
+						}
+						return true
+					})
+					// an index expression on the left of an assignment was added twice (write first)
+					var out []event
+					seen := map[token.Pos]bool{}
+					for _, e := range evs {
+						if seen[e.pos] {
+							continue
+						}
+						seen[e.pos] = true
+						out = append(out, e)
+					}
+					return out
+				}
+				ids := map[types.Object]bool{}
+				any := false
+				for _, ev := range eventsOf(fd.Body) {
+					any = true
+					for _, o := range ev.ids {
+						ids[o] = true
+					}
+				}
+				if !any || len(ids) == 0 {
+					continue
+				}
+				for x := range ids {
+					res.Obligations++
+					res.Count("node_ids_used_as_indices", 1)
+					g := cfgx.New(fd.Body, info)
+					g.Keep = cfgx.KeepUnder(func(e ast.Expr) (bool, bool) {
+						c, ok := ast.Unparen(e).(*ast.CallExpr)
+						if !ok || len(c.Args) != 1 {
+							return false, false
+						}
+						sel, ok := c.Fun.(*ast.SelectorExpr)
+						if !ok || sel.Sel.Name != "has" {
+							return false, false
+						}
+						if idOf(c.Args[0]) != x {
+							return false, false
+						}
+						return false, true
+					})
+					type st struct {
+						b int32
+						w bool
+					}
+					seen := map[st]bool{}
+					var found *event
+					var first *event
+					var walk func(b *cfg.Block, written *event)
+					walk = func(b *cfg.Block, written *event) {
+						k := st{b.Index, written != nil}
+						if seen[k] || found != nil {
+							return
+						}
+						seen[k] = true
+						for _, n := range b.Nodes {
+							for _, ev := range eventsOf(n) {
+								ev := ev
+								uses := false
+								for _, o := range ev.ids {
+									if o == x {
+										uses = true
+									}
+								}
+								if uses {
+									if written != nil {
+										found, first = written, &ev
+									}
+									return
+								}
+								if ev.write && written == nil {
+									written = &ev
+								}
+							}
+						}
+						for _, s := range g.Succs(b) {
+							walk(s, written)
+						}
+					}
+					if len(g.Blocks) > 0 {
+						walk(g.Blocks[0], nil)
+					}
+					if found != nil {
+						res.Add(core.Finding{Rule: "GRAPHINV.rangefirst", Key: fmt.Sprintf("GRAPHINV.rangefirst|%s|%s", name, x.Name()), Pos: core.Pos(first.pos), Func: name,
+							Msg: fmt.Sprintf("%s: %s is the first use of the node ID %s as an index and faults when the ID is outside the matrix, but the receiver was already modified by %s at %s: the panic leaves the graph changed", name, first.text, x.Name(), found.text, core.Pos(found.pos))})
+					}
+				}
+			}
+		}
+	}
+	return res
+}
